@@ -37,10 +37,11 @@ import props.c19_wied as wied
 
 PID = "C19"
 GEN = []
-LEAN = ["Ymq.Props.C19"] + bm.LEAN + wied.LEAN
+LEAN = ["Ymq.Props.C19", "Ymq.Props.C19Dense"] + bm.LEAN + wied.LEAN
 AUDIT = "Ymq.Audit.C19"
 THEOREMS = ["Ymq.C19." + t for t in (
-    "crt_symmetric crt_sparse_symmetric perm_sign snf_ops_unimodular_partial snf_diag snf_reduce_cols_iso_partial echelon_det_partial det_exact_partial crt_symmetric_closed").split()] + bm.THEOREMS + wied.THEOREMS
+    "crt_symmetric crt_sparse_symmetric perm_sign snf_ops_unimodular_partial snf_diag snf_reduce_cols_iso_partial echelon_det_partial det_exact_partial crt_symmetric_closed "
+    "echelon_total echelon_det det_exact_total_partial").split()] + bm.THEOREMS + wied.THEOREMS
 HYPOTHESES = ["inv_mod64_spec = Ymq.IntMat.InvSpec (theorems crt_symmetric, crt_sparse_symmetric, det_exact_partial): arith::inv_mod64(a, p) on u64 "
               "arguments returns Some(i) with i < p and a*i = 1 (mod p) whenever p > 1 and gcd(a, p) = 1; discharged for the model invMod64 that the "
               "driver runs by theorem invMod64_spec of property C08 (invMod64_invSpec, crt_symmetric_closed has no hypothesis left)"]
